@@ -48,11 +48,15 @@ pub fn run_case(lines: &[String]) -> Vec<String> {
     let mut held_str: Vec<(u32, usize, String)> = Vec::new();
     let mut held_name: Vec<(u32, usize, String)> = Vec::new();
     let mut held_solv: Vec<(u32, usize, (u32, u32))> = Vec::new();
+    // every string is handed to the pool through one reused buffer: consecutive calls see the same address (and, for words
+    // with the same number of digits, the same length) with different contents - as a provider that formats its texts into
+    // a scratch buffer does
+    let mut scratch = String::with_capacity(256);
     for l in lines {
         let t: Vec<&str> = l.split(' ').filter(|s| !s.is_empty()).collect();
         let r = catch_unwind(AssertUnwindSafe(|| -> String {
             match t[0] {
-                "str" => { let id = pool.intern_string(t[1]); let s = pool.resolve_string(id); held_str.push((id.0, s.as_ptr() as usize, s.to_string())); format!("id {}", id.0) }
+                "str" => { scratch.clear(); scratch.push_str(t[1]); let id = pool.intern_string(scratch.as_str()); let s = pool.resolve_string(id); held_str.push((id.0, s.as_ptr() as usize, s.to_string())); format!("id {}", id.0) }
                 "name" => { let id = pool.intern_package_name(t[1].to_string()); let s = pool.resolve_package_name(id); held_name.push((id.0, s as *const String as usize, s.clone())); format!("id {}", id.0) }
                 "lookup" => match pool.lookup_package_name(&t[1].to_string()) { Some(id) => format!("id {}", id.0), None => "id -".into() },
                 "solv" => { let id = pool.intern_solvable(NameId(t[1].parse().unwrap()), t[2].parse().unwrap()); let s = pool.resolve_solvable(id); held_solv.push((id.0, s as *const _ as usize, (s.name.0, s.record))); format!("id {}", id.0) }
